@@ -79,8 +79,13 @@ def _velocities():
 
 
 def _instants_us():
-    return st.tuples(eop_instants(), st.one_of(st.just(0), st.integers(0, 999999))).map(
-        lambda t: iso(t[0] + timedelta(microseconds=t[1])))
+    # whole seconds, arbitrary microseconds, and the sub-second offsets at which the time scales used inside the reduction
+    # (TT = UTC + 32.184 s + leap seconds, UT1 = UTC + dUT1) themselves land on a whole second / minute: ...50.816, ...52.816
+    frac = st.one_of(st.just(0), st.integers(0, 999999), st.sampled_from([816000, 815999, 816001, 184000]))
+    plain = st.tuples(eop_instants(), frac).map(lambda t: iso(t[0] + timedelta(microseconds=t[1])))
+    tt_minute = st.tuples(eop_instants(), st.sampled_from([50, 51, 52, 53])).map(
+        lambda t: iso(t[0].replace(second=t[1], microsecond=816000)))
+    return st.one_of(plain, plain, tt_minute)
 
 
 def _lat():
